@@ -18,7 +18,7 @@ MODEL_PLAN = {
 
 PROPS = ["C13", "C14", "C15", "C16"]
 
-EXACT = "cx,rect,cxmix,cxshift,cxabut,cxsub,frames,pinch"
+EXACT = "cx,rect,cxmix,cxshift,cxabut,cxsub,frames,pinch,holefill,teeth"
 ROUND = "aff-cx,aff-cxmix,aff-cxshift,lat,tfan,fan"
 
 CLAUSES = {"C13": ["fq", "sub"], "C14": ["cls"], "C15": ["evo", "sego"]}
